@@ -513,6 +513,12 @@ class ResultQuantifier(CanBehaveLikeAVariable[T], ABC):
             if isinstance(concluded_before, dict):
                 for seen_set in concluded_before.values():
                     seen_set.clear()
+                # an evaluation that was abandoned between two results leaves the conclusions it selected last
+                # and its operand flags behind
+                node._conclusion_.clear()
+                if "left_evaluated" in vars(node):
+                    node.left_evaluated = False
+                    node.right_evaluated = False
 
     def _evaluate__(
         self,
